@@ -1,6 +1,6 @@
 (* C07 — Simulated latency and bet delay: no look-ahead and no free speed.  Statements only. *)
 From Coq Require Import ZArith List Bool.
-From V Require Import Model.Num Model.Status Model.Sim Model.SimLoop Gen.StatusC Gen.DelayC Model.SimCases Model.Examples Proofs.SimLatencyP.
+From V Require Import Model.Num Model.Status Model.Sim Model.SimLoop Gen.StatusC Gen.DelayC Model.SimCases Model.Examples Model.SimGuard Proofs.SimLatencyP Proofs.SimAckRunP.
 Open Scope Z_scope.
 
 (* the real float comparison elapsed_seconds > simulated_delay, tabulated from the source for the four
@@ -66,6 +66,19 @@ Definition c07_book (pt : Z) := xbook pt MOpen 1 [xrunner 1 RActive None [(30000
 Definition c07_events := [ {| ev_market := 0; ev_idx := 0; ev_book := c07_book 1000 |};
                            {| ev_market := 0; ev_idx := 1; ev_book := c07_book 1400 |};
                            {| ev_market := 0; ev_idx := 2; ev_book := c07_book 6000 |} ].
+(* 4b. WHOLE RUNS, every book (removals, starting-price reconciliation, suspensions, closures and re-openings included), any script: at the
+       end of the run (hence after every prefix) an order that carries an acknowledgement time t was acknowledged more than the configured
+       latency after its request time - the placement latency, or the replacement latency for the order a replace creates (whose request
+       time is the replace request's); nothing else in a run ever rewrites request or acknowledgement times (stamp lemmas: matching,
+       SP conversion, removal, sweep, later requests).  The boolean hypothesis (a placement package finds the order it was created with,
+       bet delays are not negative) is evaluated by the harness on every scenario. *)
+Theorem C07_run_ack_after_latency : forall tb cf n sc es s m o t,
+  (forall m0, In m0 (s_markets s) -> mk_orders m0 = []) -> run_ack_guard_b tb cf n sc es s = true ->
+  In m (s_markets (fold_left (step tb cf n sc) es s)) -> In o (mk_orders m) -> so_placed o = Some t ->
+  (if so_repl o then cf_lat_replace cf else cf_lat_place cf) < t - so_created o.
+Proof. exact run_ack_after_latency. Qed.
+Print Assumptions C07_run_ack_after_latency.
+
 Definition c07_script := [(0, 0, 1, [APlace 1 1 Back (OLimit 20000 200 PLapse false None) None])].
 Theorem C07_fragment_time_refuted :
   let '(obs, _) := run_obs tb_up std_cfg 1 (script_of c07_script) (sim0 [mkmarket 0 std_static]) c07_events in
